@@ -5,7 +5,7 @@
 use super::ctx::*;
 
 pub const BUF_MAX: usize = 4;
-pub const WQ_MAX: usize = 4;
+pub const WQ_MAX: usize = 5;
 
 // future life-cycle in the model
 pub const F_NONE: u8 = 0; // not created
